@@ -36,6 +36,8 @@ type WorldJSON struct {
 		RTypes     []string `json:"rtypes"`
 		URIs       []string `json:"uris"`
 		PostLogout []string `json:"postLogout"`
+		LoginGlob  []string `json:"loginGlob"` // names of URIs matched by the client's login redirect glob (only)
+		PLGlob     []string `json:"plGlob"`    // names of URIs matched by the client's post-logout redirect glob (only)
 		AT         string   `json:"at"`
 		Assert     bool     `json:"assert"`
 	} `json:"clients"`
@@ -68,8 +70,13 @@ var ConcreteURI = map[string]string{
 	"plcw":    "https://cw.example.test/bye",
 	"plcx":    "https://cx.example.test/bye?x=1",
 	"plcj":    "https://cj.example.test/bye",
+	"ucwG":    "https://cw.example.test/cbs/one",
+	"plcwG":   "https://cw.example.test/byes/one",
 	"":        "",
 }
+
+// ConcreteGlob: the glob pattern behind a globbed URI name.
+var ConcreteGlob = map[string]string{"ucwG": "https://cw.example.test/cbs/*", "plcwG": "https://cw.example.test/byes/*"}
 
 func AbstractURI(concrete string) string {
 	for k, v := range ConcreteURI {
@@ -116,6 +123,12 @@ func BuildRegs(w *WorldJSON) []*modelstore.ClientReg {
 		}
 		for _, u := range c.PostLogout {
 			r.PostLogout = append(r.PostLogout, ConcreteURI[u])
+		}
+		for _, u := range c.LoginGlob {
+			r.HasGlobs, r.Globs = true, append(r.Globs, ConcreteGlob[u])
+		}
+		for _, u := range c.PLGlob {
+			r.HasGlobs, r.PLGlobs = true, append(r.PLGlobs, ConcreteGlob[u])
 		}
 		if c.Auth == "pkjwt" {
 			k := ClientKey(id)
